@@ -274,7 +274,12 @@ func (server *Server) ZRem(conn *redis.Conn, key string, members []string) (*red
 	if err != nil {
 		return nil, err
 	}
-	return redis.NewIntegerMessage(zset.Rem(members)), nil
+	removedCount := zset.Rem(members)
+	if len(zset.members) == 0 {
+		// A sorted set that becomes empty is removed like Redis.
+		db.RemoveRecord(key)
+	}
+	return redis.NewIntegerMessage(removedCount), nil
 }
 
 func (server *Server) ZScore(conn *redis.Conn, key string, member string) (*redis.Message, error) {
